@@ -26,7 +26,7 @@ class C18(Prop):
             32: "a worker panicked and the exit status is 0 (at 1 or at N threads)"}
     rule = ("file sets mixing clean, warning-only, erroring, unparsable, missing, tiny and large (hundreds to thousands of diagnostics, "
             ">8 KiB and >64 KiB of output) files; styles quiet and json2; --num-threads 2/3/8/16/64 against the --num-threads 1 run of the "
-            "same set; the per-file blocks are taken from the sequential run, the observed parallel output must parse into exactly those "
+            "same set (some sets are clean files plus one whose check panics in the worker: the dead worker must show in the exit status); the per-file blocks are taken from the sequential run, the observed parallel output must parse into exactly those "
             "blocks; non-trivial = at least two files with diagnostics; distinct = distinct (file set, style, threads)")
     trusted_base = [
         "modelled: the worker protocol of read() - fetch_add of per-file counts, one stdout lock per parse-error diagnostic and one per file's lint diagnostics (Pipeline/Conc.v)",
